@@ -1,6 +1,7 @@
 (* C06 — distances are well-defined numbers. *)
 From Coq Require Import Floats ZArith List.
 From Syz Require Import Quant Dist DistProofs.
+Import ListNotations.
 
 (* Euclidean distance of finite vectors: never NaN, sign bit clear (so >= +0), for all magnitudes *)
 Theorem C06_euclid_total : forall a b, Forall finite_f a -> Forall finite_f b ->
